@@ -66,4 +66,23 @@ func genGeom(repo string) {
 	}
 	fmt.Fprintf(&g.body, "/-- `RLEs.FitToBounds(nil)` returns a copy of all runs (not an empty slice) -/\ndef fitToBoundsNilCopies : Bool := %v\n", nilCopies)
 	facts.Extra["fitToBoundsNilCopies"] = nilCopies
+	// RLEs.UnmarshalBinaryReader: are runs allocated as they arrive (bounded preallocation + append)?
+	asRead, maxPre := false, int64(-1)
+	if fd := dv.funcDecl("RLEs", "UnmarshalBinaryReader"); fd != nil {
+		src := strings.NewReplacer(" ", "", "\t", "", "\n", "").Replace(regexp.MustCompile(`//[^\n]*`).ReplaceAllString(dv.src(fd), ""))
+		if m := regexp.MustCompile(`constmaxPrealloc=1<<(\d+)`).FindStringSubmatch(src); m != nil {
+			var sh int64
+			fmt.Sscanf(m[1], "%d", &sh)
+			maxPre = 1 << uint(sh)
+		}
+		asRead = maxPre > 0 && strings.Contains(src, "prealloc:=numRLEsifprealloc>maxPrealloc{prealloc=maxPrealloc}*rles=make(RLEs,0,prealloc)") &&
+			strings.Contains(src, "*rles=append(*rles,rle)") && !strings.Contains(src, "make(RLEs,numRLEs")
+	}
+	fmt.Fprintf(&g.body, "/-- `RLEs.UnmarshalBinaryReader` allocates runs as they arrive instead of trusting the announced count -/\ndef rleReaderAllocatesAsRead : Bool := %v\n", asRead)
+	if maxPre > 0 {
+		fmt.Fprintf(&g.body, "def rleReaderMaxPrealloc : Nat := %d\n", maxPre)
+	} else {
+		g.body.WriteString("def rleReaderMaxPrealloc : Nat := 0\n")
+	}
+	facts.Extra["rleReaderAllocatesAsRead"] = asRead
 }
